@@ -50,6 +50,13 @@ def emission_values(rng, n, D, G):
     return vals
 
 
+def _subtree_nodes(f, i):
+    out = {i}
+    for ch in f.children(i):
+        out |= _subtree_nodes(f, ch)
+    return out
+
+
 def case_task(task):
     from vlib.harness import Partial, describe_exception
     from phyclone.data.base import DataPoint
@@ -82,6 +89,21 @@ def case_task(task):
         try:
             compute_log_S.cache_clear()
             _convolve_two_children.cache_clear()
+            if c.get("warm"):
+                # process history: related forests over the same data are evaluated first (every pair of its top-level clones, in a
+                # random order, never the whole forest), leaving their entries in the array caches
+                tops = f.tops()
+                import itertools as _it
+                pairs = [list(p) for p in _it.combinations(tops, 2)] if len(tops) >= 3 else []
+                rng.shuffle(pairs)
+                for sel in pairs[:6] + [tops[:1]]:
+                    if not sel:
+                        continue
+                    keep = sorted(set().union(*[_subtree_nodes(f, t) for t in sel]))
+                    sub = gen.AForest([f.blocks[i] for i in keep],
+                                      [None if f.parent[i] is None else keep.index(f.parent[i]) for i in keep])
+                    gen.build_tree(sub, data)
+                    part.count("warm_up_forests")
             tree, names = gen.build_tree(f, data, child_order_rng=rng if c.get("shuffle") else None)
             vec = monitors.node_vectors(tree)
             root = np.array(tree.data_log_likelihood)
@@ -184,14 +206,15 @@ def run(ctx):
                               n_tops=[None, 1, 3, 6][i % 4])
         cases.append({"id": cid, "mode": "interval", "forest": f.describe(), "G": [3, 5, 11, 101][i % 4] if i % 10 else 21,
                       "D": 1 + i % 4, "kind": ["flat", "moderate", "smooth", "peaked", "binom", "emission"][i % 6],
-                      "shuffle": bool(i % 2)})
+                      "shuffle": bool(i % 2), "warm": bool(i % 3 == 0)})
         cid += 1
     n_big = 12 if quick else 200
     for i in range(n_big):
         n = int(rng.integers(2, 7))
-        f = gen.random_forest(rng, n, max_children=4, shape=[None, "star", "bushy"][i % 3], n_tops=[None, 2][i % 2])
+        f = gen.random_forest(rng, n, max_children=4, shape=[None, "star", "bushy"][i % 3], n_tops=[None, 3][i % 2])
         cases.append({"id": cid, "mode": "interval", "forest": f.describe(), "G": [999, 1000, 1001, 1201][i % 4],
-                      "D": 1 + i % 2, "kind": ["moderate", "smooth", "peaked", "emission"][(i // 4) % 4], "shuffle": False})
+                      "D": 1 + i % 2, "kind": ["moderate", "smooth", "peaked", "emission"][(i // 4) % 4], "shuffle": False,
+                      "warm": bool(i % 2)})
         cid += 1
     big = [c for c in cases if c["G"] >= 999]
     small = [c for c in cases if c["G"] < 999]
